@@ -45,7 +45,15 @@ echo "== 3. demo with change (must fail)"
 if go test -vet=off -count=1 -run "^($runre)\$" "./$place" ; then echo "RESULT $name: REJECT demo still passes with the change"; exit 1; fi
 echo "== 4. existing suite with change, demo absent (must pass)"
 rm -f "$wt/$place/$(basename $demo)"
-if ! go test -vet=off -count=1 ./... > "$log.suite" 2>&1 ; then grep -v '^ok\|no test files' "$log.suite" | head -30; echo "RESULT $name: REJECT existing suite fails with the change"; exit 1; fi
+if ! go test -vet=off -count=1 ./... > "$log.suite" 2>&1 ; then
+  failed=$(grep '^FAIL\s' "$log.suite" | awk '{print $2}' | sort -u)
+  # pkg/clock is timing-flaky under load (listed as flaky in the baseline): retry it alone
+  if [ "$failed" = "github.com/oauth2-proxy/oauth2-proxy/v7/pkg/clock" ] && (go test -vet=off -count=1 ./pkg/clock || go test -vet=off -count=1 ./pkg/clock) >/dev/null 2>&1; then
+    echo "pkg/clock flaked once, passed on retry"
+  else
+    grep -v '^ok\|no test files' "$log.suite" | head -30; echo "RESULT $name: REJECT existing suite fails with the change"; exit 1
+  fi
+fi
 echo "suite ok ($(grep -c '^ok' "$log.suite") packages)"
 dst="/verif/seeded/$name"; mkdir -p "$dst"
 cp "$src/patch.diff" "$dst/patch.diff"; cp "$demo" "$dst/"; cp "$src/notes.md" "$dst/notes.md" 2>/dev/null
